@@ -260,6 +260,46 @@ def run(rep, tier, seed):
                               f"(the previous-step argument of the generated function is overwritten)"))
     except Exception as ex:  # noqa
         rep.notes.append(f"reserved-name probe: {type(ex).__name__}: {str(ex)[:100]}")
+    # ---- renaming a variable to `pi` / `e` in a model that uses the constants pi / E, and a parameter to the name of an alias
+    #      (`x_tag_0`) in a finite-difference model: refused, or the same model
+    try:
+        import sympy as _sp
+        from Solverz import Model, Var, Param, Eqn, AliasVar, made_numerical, sin as _sin
+        def const_model(vn, const):
+            m = Model(); setattr(m, vn, Var(vn, [0.1, 0.3])); m.k = Param("k", [1.0, 0.5])
+            m.eq = Eqn("eq", _sin(const * getattr(m, vn)) - 0.5 * m.k)
+            eqs, y0 = lang.quiet(m.create_instance)
+            return lang.quiet(made_numerical, eqs, y0, sparse=True), eqs, y0
+        for const, bad in ((_sp.pi, "pi"), (_sp.E, "e")):
+            nd_ref, _, y_ref = const_model("u", const)
+            F_ref = np.asarray(nd_ref.F(y_ref.array, nd_ref.p), dtype=float)
+            try:
+                nd_b, eqs_b, y_b = const_model(bad, const)
+            except Exception:  # noqa
+                continue
+            F_b = np.asarray(nd_b.F(y_b.array, nd_b.p), dtype=float)
+            g_b = np.asarray(eqs_b.g(y_b), dtype=float).reshape(-1) if hasattr(eqs_b, "g") else F_b
+            stats["constant_names"] = stats.get("constant_names", 0) + 1
+            if not (np.allclose(F_b, F_ref, rtol=1e-12) and np.allclose(g_b, F_ref, rtol=1e-12)):
+                fails.append((dict(original=f"sin({const}*u) - k/2", variant=f"u renamed to {bad}"),
+                              f"renaming the variable to {bad} changes F from {F_ref} to {F_b} (symbolic evaluation {g_b}): the name shadows the constant"))
+        def fd_tag(pn):
+            m = Model(); m.x = Var("x", 1.0); m.x_prev = AliasVar("x", init=m.x); m.dt = Param("dt", 0.1); setattr(m, pn, Param(pn, 1.5))
+            m.e1 = Eqn("e1", m.x - m.x_prev + m.dt * m.x * getattr(m, pn))
+            eqs, y0 = lang.quiet(m.create_instance)
+            return lang.quiet(made_numerical, eqs, y0, sparse=True)
+        nd_w = fd_tag("w")
+        F_w = np.asarray(nd_w.F(0.0, np.array([0.9]), nd_w.p, np.array([1.0])), dtype=float)
+        try:
+            nd_t = fd_tag("x_tag_0")
+            F_t = np.asarray(nd_t.F(0.0, np.array([0.9]), nd_t.p, np.array([1.0])), dtype=float)
+            if not np.allclose(F_t, F_w, rtol=1e-12):
+                fails.append((dict(original="FDAE x - x_prev + dt*x*w", variant="w renamed to x_tag_0"),
+                              f"renaming the parameter to x_tag_0 changes F from {F_w} to {F_t}: it shares the slot of the alias of x"))
+        except Exception:  # noqa — refused loudly
+            pass
+    except Exception as ex:  # noqa
+        rep.notes.append(f"constant / alias name probe: {type(ex).__name__}: {str(ex)[:100]}")
     # ---- start values given by an expression (Var(init=...)) over a parameter and a variable: the value must not depend on how the
     #      names of the two sort
     from Solverz import Model, Var, Param, Eqn
